@@ -50,12 +50,12 @@ def plan(tier, seed):
         nshards = 16
     else:
         for c in gen.pqr_all(1, 3) + gen.sig_orderings(2, 3)[::3]:
-            U.append({'cfg': c, 'per_op': 12, 'sympy': gen.cfg_dim(c) <= 2})
+            U.append({'cfg': c, 'per_op': 40, 'sympy': gen.cfg_dim(c) <= 2})
             if gen.cfg_dim(c) == 3:
                 U.append({'cfg': c, 'per_op': 2, 'sympy': True, 'sympy_sparse_only': True})
         for c in gen.pqr_all(4, 4):
-            U.append({'cfg': c, 'per_op': 6, 'sympy': False, 'elementary_only': True})
-            U.append({'cfg': c, 'per_op': 1, 'sympy': False})
+            U.append({'cfg': c, 'per_op': 24, 'sympy': False, 'elementary_only': True})
+            U.append({'cfg': c, 'per_op': 4, 'sympy': False})
         nshards = 64
     rng.shuffle(U)
     return [{'units': part} for part in gen.split(U, nshards)]
